@@ -196,4 +196,83 @@ theorem intensity_fraction_unit_interval (ps ms : List (Rat × Rat)) (hnd : (ps.
 
 example : (([(100, 5), (200, 0), (300, 7)] : List (Rat × Rat)).map (·.1)).Nodup := by decide
 
+/-! ## 4. fragment matches and coverage -/
+
+/-- `get_fragment_matches`, mode `all`, over ℚ: after both inputs have been sorted by m/z (stable), every fragment is
+paired with exactly the peaks whose m/z lies in its window — whatever the order of the inputs was. -/
+theorem fragment_matches_all (t : Tol) (tol : Rat) (frags : List (Nat × Rat)) (mzs ints : List Rat)
+    (hlo : ∀ a b, a ≤ b → lo t tol a ≤ lo t tol b) :
+    getFragmentMatches .all t tol frags mzs ints
+      = .ok ((sortBy (fun a b => Num.lt a.2 b.2) frags).flatMap fun f =>
+          ((sortBy (fun (a b : Rat × Rat) => Num.lt a.1 b.1) (mzs.zip ints)).filter
+              (fun p => inWindow t tol p.1 f.2)).map fun p => (⟨f.1, p.1, p.2⟩ : FMatch Rat)) := by
+  unfold getFragmentMatches
+  simp only
+  have hfs : ((sortBy (fun (a b : Nat × Rat) => Num.lt a.2 b.2) frags).map (·.2)).Pairwise (· ≤ ·) := by
+    rw [List.pairwise_map]; exact sortBy_sorted (fun a : Nat × Rat => a.2) frags
+  have hps : ((sortBy (fun (a b : Rat × Rat) => Num.lt a.1 b.1) (mzs.zip ints)).map (·.1)).Pairwise (· ≤ ·) := by
+    rw [List.pairwise_map]; exact sortBy_sorted (fun a : Rat × Rat => a.1) (mzs.zip ints)
+  rw [all_mode_eq_window t tol _ _ _ hfs hps hlo]
+  simp only
+  congr 1
+  generalize sortBy (fun (a b : Nat × Rat) => Num.lt a.2 b.2) frags = fs
+  generalize sortBy (fun (a b : Rat × Rat) => Num.lt a.1 b.1) (mzs.zip ints) = peaks
+  rw [List.map_map]
+  have hz : ∀ (l : List (Nat × Rat)) (g : Nat × Rat → Hit), l.zip (l.map g) = l.map fun x => (x, g x) := by
+    intro l g; induction l with
+    | nil => rfl
+    | cons a l ih => simp [ih]
+  rw [hz, List.flatMap_map]
+  apply List.flatMap_congr
+  intro f _
+  simp only [Function.comp, expandHit_hitOfWindow]
+  have := window_filterMap (inWindow t tol) f.2 (fun p => (⟨f.1, p.1, p.2⟩ : FMatch Rat)) peaks []
+  simpa [window] using this
+
+
+/-- … hence, regardless of the order in which fragments and peaks are given: a match `(fragment, m/z, intensity)` is
+produced iff the fragment is one of the given fragments, the peak one of the given peaks, and the peak's m/z lies
+in the fragment's window (bounds inclusive) -/
+theorem fragment_matches_order_free (t : Tol) (tol : Rat) (frags : List (Nat × Rat)) (mzs ints : List Rat)
+    (hlo : ∀ a b, a ≤ b → lo t tol a ≤ lo t tol b) (ms : List (FMatch Rat))
+    (h : getFragmentMatches .all t tol frags mzs ints = .ok ms) (fid : Nat) (mz inten : Rat) :
+    (∃ m ∈ ms, m.frag = fid ∧ m.mz = mz ∧ m.inten = inten) ↔
+      ∃ f ∈ frags, ∃ p ∈ mzs.zip ints, inWindow t tol p.1 f.2 = true ∧ f.1 = fid ∧ p.1 = mz ∧ p.2 = inten := by
+  rw [fragment_matches_all t tol frags mzs ints hlo] at h
+  cases h
+  constructor
+  · rintro ⟨m, hm, h1, h2, h3⟩
+    rw [List.mem_flatMap] at hm
+    obtain ⟨f, hf, hm⟩ := hm
+    rw [List.mem_map] at hm
+    obtain ⟨p, hp, rfl⟩ := hm
+    rw [List.mem_filter] at hp
+    exact ⟨f, (mem_sortBy _ _ _).mp hf, p, (mem_sortBy _ _ _).mp hp.1, hp.2, h1, h2, h3⟩
+  · rintro ⟨f, hf, p, hp, hw, h1, h2, h3⟩
+    refine ⟨⟨f.1, p.1, p.2⟩, ?_, h1, h2, h3⟩
+    rw [List.mem_flatMap]
+    refine ⟨f, (mem_sortBy _ _ _).mpr hf, ?_⟩
+    rw [List.mem_map]
+    exact ⟨p, List.mem_filter.mpr ⟨(mem_sortBy _ _ _).mpr hp, hw⟩, rfl⟩
+
+/-- `get_match_coverage` (after the repair) counts a fragment once: a further match of a fragment that already
+occurred among the matches (mode `all` pairs a fragment with every peak in its window) changes nothing -/
+theorem coverage_once (n : Nat) (pre post : List CovIn) (m : CovIn) (hm : m ∈ pre) :
+    matchCoverage true n (pre ++ m :: post) = matchCoverage true n (pre ++ post) :=
+  matchCoverageGo_dup n m post pre [] [] (Or.inl hm)
+
+/-- … and a fragment is counted: when all matches belong to different fragments, every match increments the
+residues `start..end-1` under its label exactly as the plain per-match count does -/
+theorem coverage_distinct_fragments (n : Nat) (ms : List CovIn) (hnd : (ms.map (·.key)).Nodup) :
+    matchCoverage true n ms = matchCoverage false n ms :=
+  matchCoverageGo_nodup n ms [] [] [] (fun _ _ => by simp) hnd
+
+/-- the defect that was repaired (KF-C17-coverage-per-peak): counting per match, a b-ion covering residues 0..2 that
+matched two peaks contributed 2 to every residue -/
+theorem coverage_per_match_counts_twice :
+    matchCoverage false 3 [⟨0, 1, "b", 0, 3⟩, ⟨0, 1, "b", 0, 3⟩] = .ok [((1, "b"), [2, 2, 2])] ∧
+    matchCoverage true 3 [⟨0, 1, "b", 0, 3⟩, ⟨0, 1, "b", 0, 3⟩] = .ok [((1, "b"), [1, 1, 1])] := by decide
+
+example : (([⟨0, 1, "b", 0, 3⟩, ⟨1, 1, "y", 1, 3⟩] : List CovIn).map (·.key)).Nodup := by decide
+
 end Score
